@@ -5,6 +5,9 @@ build harness (cargo, against /repo's working tree) and extracted model -> corre
 (implementation vs model on the same cases) -> oracle pass on the implementation's outputs ->
 evidence + verdict lines.
 """
+import contextlib
+import fcntl
+import functools
 import hashlib
 import json
 import os
@@ -41,7 +44,44 @@ ENV = dict(os.environ)
 ENV.update({"CARGO_NET_OFFLINE": "true", "CARGO_TARGET_DIR": TARGET})
 
 
+# ------------------------------------------------------------------------------------------------
+# build lock: checks may be run concurrently; everything that writes shared build products
+# (coq/*.vo, coq/Generated, extract/_build, the harness target directories) is serialised
+# ------------------------------------------------------------------------------------------------
+_lock_state = {"depth": 0, "fd": None}
+
+
+@contextlib.contextmanager
+def build_lock():
+    st = _lock_state
+    if st["depth"] == 0:
+        os.makedirs(CACHE, exist_ok=True)
+        st["fd"] = open(os.path.join(CACHE, "build.lock"), "w")
+        fcntl.flock(st["fd"], fcntl.LOCK_EX)
+    st["depth"] += 1
+    try:
+        yield
+    finally:
+        st["depth"] -= 1
+        if st["depth"] == 0:
+            fcntl.flock(st["fd"], fcntl.LOCK_UN)
+            st["fd"].close()
+            st["fd"] = None
+
+
+def locked(fn):
+    @functools.wraps(fn)
+    def wrapper(*a, **k):
+        with build_lock():
+            return fn(*a, **k)
+    return wrapper
+
+
 def sh(cmd, cwd=None, timeout=None, env=None, check=False):
+    if isinstance(cmd, str) and cmd.startswith("make ") and cwd and os.path.abspath(cwd) == os.path.abspath(COQ) \
+            and _lock_state["depth"] == 0:
+        with build_lock():     # every make in the shared coq/ directory is serialised
+            return sh(cmd, cwd, timeout, env, check)
     p = subprocess.run(cmd, cwd=cwd, shell=isinstance(cmd, str), stdout=subprocess.PIPE,
                        stderr=subprocess.STDOUT, timeout=timeout, env=env or ENV)
     out = p.stdout.decode("utf-8", "replace")
@@ -109,6 +149,7 @@ def strip_comments(src):
     return "".join(out)
 
 
+@locked
 def coq_build(pid, timeout=1500):
     """Build Properties/<pid>.vo (always recompiling the property file itself so that its
     Print Assumptions output is captured). Returns a dict describing the proof state."""
@@ -190,6 +231,7 @@ def coq_build(pid, timeout=1500):
 # harness / model builds
 # ------------------------------------------------------------------------------------------------
 
+@locked
 def harness_build(feat="base", timeout=1500):
     hd = os.path.join(ROOT, "harness")
     os.makedirs(TARGET, exist_ok=True)
@@ -214,6 +256,7 @@ class BuildError(Exception):
     pass
 
 
+@locked
 def model_build(name="main", timeout=900):
     """build extract/_build/<name>.exe from extract/<name>/{Extract.v,driver.ml}"""
     exe = os.path.join(ROOT, "extract", "_build", "%s.exe" % name)
@@ -251,7 +294,7 @@ def run_exe(exe, lines, workdir, tag, extra_args=None, timeout=3000):
     size = (n + shards - 1) // shards
     files = []
     for i in range(shards):
-        p = os.path.join(workdir, "%s.%d.cases" % (tag, i))
+        p = os.path.join(workdir, "%s.%d.%d.cases" % (tag, os.getpid(), i))
         with open(p, "w") as f:
             f.write("\n".join(lines[i * size:(i + 1) * size]) + "\n")
         files.append(p)
@@ -434,7 +477,8 @@ def standard_flow(ctx, feat, gen_cases, oracle=None, nontrivial=None, classify=N
     try:
         ctx.harness = harness_build(feat)
         if regen:
-            regen(ctx)
+            with build_lock():
+                regen(ctx)
         proof_ok = ctx.coq()
         ctx.build(feat, model=True, model_name=model_name)
     except BuildError as e:
